@@ -88,6 +88,41 @@ def hist_to_case(h, chosen, name, nest_rng):
     return {"case": name, "ops": ops}
 
 
+def exact_fit_case(rng, name, tab):
+    """An over-aligned closure pushed when exactly 8 + size bytes remain in a
+    fresh 1 KiB / grown buffer (no room for alignment padding)."""
+    ops = []
+    nid = 1
+    over = [(i, sz, al) for (i, sz, al) in tab if al >= 16 and sz + 8 <= 900]
+    small32 = [i for (i, sz, al) in tab if sz == 24 and al == 8][0]
+    small40 = [i for (i, sz, al) in tab if sz == 32 and al == 8][0]
+    for _ in range(rng.randrange(1, 4)):
+        i, sz, al = rng.choice(over)
+        target = 1024 - (8 + sz) - rng.choice([0, 0, 0, 8, 16])
+        if target < 0 or target % 8:
+            continue
+        # target = 32a + 40b
+        sol = None
+        for bcount in range(0, 5):
+            rem = target - 40 * bcount
+            if rem >= 0 and rem % 32 == 0:
+                sol = (rem // 32, bcount)
+                break
+        if sol is None:
+            continue
+        for _ in range(sol[0]):
+            ops.append(["push", small32, nid, False])
+            nid += 1
+        for _ in range(sol[1]):
+            ops.append(["push", small40, nid, False])
+            nid += 1
+        ops.append(["push", i, nid, False])
+        nid += 1
+        ops.append(["exec"])
+        # the next round starts from an empty buffer of the same capacity
+    return {"case": name, "ops": ops}
+
+
 def rand_case(rng, name, nshapes):
     ops = []
     nid = 1
@@ -196,7 +231,10 @@ def run(prop, tier, seed, replay=None):
                 cases = cases[:cap]
         rng = random.Random(seed * 31 + 7)
         for i in range(300 if tier == "quick" else 6000):
-            cases.append(rand_case(rng, "qrand-%d-%d" % (seed, i), len(tab)))
+            if i % 3 == 0:
+                cases.append(exact_fit_case(rng, "qfit-%d-%d" % (seed, i), tab))
+            else:
+                cases.append(rand_case(rng, "qrand-%d-%d" % (seed, i), len(tab)))
     tag = "C17-%s-%d" % (tier, seed)
     tpath, lines = run_queue_diff(binary, cases, tag)
     rc, out = common.tlc("FlatTrace.tla", "FlatTrace.cfg", "flat-trace", env={"TRACE": tpath}, workers=1, heap="6g")
@@ -206,7 +244,7 @@ def run(prop, tier, seed, replay=None):
     verdict = json.loads(m.group(1).encode().decode("unicode_escape"))
     nv = 0
     for v in verdict["violations"]:
-        if v["prop"] != "C17":
+        if v["prop"] != prop:
             continue
         idx = None
         for ln in lines[:v["line"]]:
@@ -214,8 +252,8 @@ def run(prop, tier, seed, replay=None):
                 idx = json.loads(ln)["idx"]
         case = cases[idx] if idx is not None else {}
         common.ensure_dirs()
-        path = os.path.join(common.REPLAYS, "C17-s%d-%d.json" % (seed, nv))
-        json.dump({"property": "C17", "why": v["why"], "case": case, "trace_excerpt": lines[max(0, v["line"] - 30):v["line"] + 1]}, open(path, "w"))
+        path = os.path.join(common.REPLAYS, "%s-q-s%d-%d.json" % (prop, seed, nv))
+        json.dump({"property": prop, "why": v["why"], "case": case, "trace_excerpt": lines[max(0, v["line"] - 30):v["line"] + 1]}, open(path, "w"))
         viols.append({"why": v["why"], "replay": path, "sig": "queue"})
         nv += 1
     samples = [cases[i] for i in range(0, len(cases), max(1, len(cases) // 3))][:3]
